@@ -129,6 +129,32 @@ class SymArr(Arr):
         return a
 
 
+class PyList:
+    """a Python list of unknown (symbolic) length whose elements are atoms at(name, i)"""
+
+    def __init__(self, name, length=None, pos=False):
+        self.name = name
+        self.sym = alg.sym(name, pos=pos)
+        self.length = length if length is not None else alg.fn("len", self.sym, integer=True, pos=True)
+        self.pos = pos
+
+    def at(self, idx):
+        return alg.fn("at", self.sym, idx, pos=self.pos)
+
+    def __repr__(self):
+        return "PyList(%s)" % self.name
+
+
+class SetV:
+    """a Python set of scalar values; duplicates are removed by (possibly decided) equality"""
+
+    def __init__(self, items):
+        self.items = list(items)
+
+    def __repr__(self):
+        return "SetV(%s)" % ", ".join(repr(i) for i in self.items)
+
+
 class NeedDecision(Exception):
     pass
 
@@ -320,6 +346,8 @@ class Interp:
             return bool(v)
         if isinstance(v, Tup):
             return len(v.items) > 0
+        if isinstance(v, SetV):
+            return len(v.items) > 0
         if isinstance(v, Expr):
             c = v.as_const()
             if c is not None:
@@ -333,6 +361,8 @@ class Interp:
             return self.decide("truth of array %s" % (v.name,))
         if isinstance(v, (Opaque, FuncRef, ModRef)):
             return True
+        if isinstance(v, PyList):
+            return self.decide("list %s is non-empty" % v.name)
         return self.decide("truth of %r" % (v,))
 
     # ---- entry
@@ -553,7 +583,7 @@ class Interp:
         elems = None
         if isinstance(it, Tup):
             elems = it.items
-        if elems is not None and len(elems) <= 8 and not _assigned_names(s.body) & set(env):
+        if elems is not None and len(elems) <= 16:
             for x in elems:
                 self.assign(s.target, x, env)
                 self.exec_block(s.body, env)
@@ -924,8 +954,19 @@ class Interp:
         if isinstance(base, Opaque):
             if attr in base.attrs:
                 return base.attrs[attr]
+            cls = base.attrs.get("__class__")
+            if cls is not None:
+                m, c = cls
+                for n in c.body:
+                    if isinstance(n, ast.FunctionDef) and n.name == attr and any(dotted_name(d) == "property" for d in n.decorator_list):
+                        fr = FuncRef("pkg", m.name + "." + c.name + "." + attr, m, n)
+                        return self.call_package(fr, [base], {}, node)
+                    if isinstance(n, ast.FunctionDef) and n.name == attr:
+                        return FuncRef("method", base.name + "." + attr, bound=base)
+                if base.attrs.get("__strict__"):
+                    raise AnalysisError("%s:%s: %s has no attribute %s" % (self.cur_mod.name, getattr(node, "lineno", "?"), base.name, attr))
             return FuncRef("method", base.name + "." + attr, bound=base)
-        if isinstance(base, (Tup, str)):
+        if isinstance(base, (Tup, str, SetV)):
             return FuncRef("method", attr, bound=base)
         if isinstance(base, FuncRef):
             return FuncRef("ext", base.dotted + "." + attr)
@@ -958,6 +999,26 @@ class Interp:
         for k, v in zip(node.keys, node.values):
             items.append((self.eval(k, env) if k is not None else None, self.eval(v, env)))
         return Tup(items, kind="dict")
+
+    def ev_Set(self, node, env):
+        return self.make_set([self.eval(e, env) for e in node.elts])
+
+    def make_set(self, items):
+        out = []
+        for x in items:
+            dup = False
+            for y in out:
+                if isinstance(x, Expr) and isinstance(y, Expr):
+                    r = self.cmp_expr(x - y, "==")
+                    if self.decide_pred(r):
+                        dup = True
+                        break
+                elif x is y or (isinstance(x, (str, bool)) and x == y):
+                    dup = True
+                    break
+            if not dup:
+                out.append(x)
+        return SetV(out)
 
     def ev_JoinedStr(self, node, env):
         return "<fstring>"
@@ -1123,6 +1184,11 @@ class Interp:
             if "getitem" in base.attrs:
                 return base.attrs["getitem"](key)
             return Unknown("%s[%r]" % (base.name, key))
+        if isinstance(base, PyList):
+            k = self.eval(node.slice, env)
+            if isinstance(k, Expr):
+                return base.at(k)
+            return Unknown("index of list %s" % base.name)
         if isinstance(base, str):
             return "<substr>"
         if isinstance(base, Unknown):
